@@ -4,7 +4,7 @@ import json
 import os
 import subprocess
 
-from contracts import c02_elem
+from contracts import c02_elem, c02_struct
 from lib.report import REPO, VENV_PY, VERIF, Report, run_bounded
 from pyvc import frontend, solve
 
@@ -65,6 +65,24 @@ def replay_elem(r):
     return None, out.get("confirmed", False), out
 
 
+STRUCT_PROVED = {"Tensor_Transpose_Property", "Transpose", "MoveAxis", "SwapAxes", "Roll", "Reshape", "Flatten", "Ravel", "Squeeze", "ExpandDims",
+                 "AtLeast1D", "AtLeast2D", "AtLeast3D", "BroadcastTo"}
+
+
+def replay_struct(r):
+    meta = r.meta
+    if meta.get("kind") == "lemma":
+        return None, False, "arithmetic lemma: no input of the library involved"
+    spec = dict(op=meta["op"], rank=meta["rank"], args=meta.get("args", "()"), ones=meta.get("ones", []), model=r.model, mode="forward" if meta.get("kind") == "forward" else "vjp")
+    env = dict(os.environ, PYTHONPATH=os.path.join(REPO, "src") + os.pathsep + VERIF)
+    p = subprocess.run([VENV_PY, os.path.join(VERIF, "runtime", "c02_struct_replay.py"), json.dumps(spec, default=str)], capture_output=True, text=True, env=env, timeout=300)
+    lines = [l for l in p.stdout.splitlines() if l.startswith("{")]
+    if not lines:
+        return None, False, f"replay produced no result: {p.stderr[-300:]}"
+    out = json.loads(lines[-1])
+    return None, out.get("confirmed", False), out
+
+
 def run(tier, seed):
     rep = Report("C02", tier, seed, level="other")
     obls, info = c02_elem.obligations(tier)
@@ -79,9 +97,23 @@ def run(tier, seed):
         return path, confirmed, detail
 
     rep.add_deductive(results, replay)
+    # rearrangement operations (index-function domain): VJP for symbolic extents / shifts, enumerated ranks and axis arguments
+    sobls, sinfo = c02_struct.obligations(tier)
+    sobls = [o for o in sobls if not o.name.startswith("C03.")]  # the forward-agrees-with-NumPy obligations belong to C03's check
+    rep.add_functions(sinfo["functions"])
+    rep.unsupported += [f"c02_struct: {u}" for u in sinfo["unsupported"]]
+    sresults = solve.discharge(sobls, timeout_ms=20000 if tier == "quick" else 60000, cross_check=(tier == "thorough"))
+
+    def sreplay(r):
+        _p, confirmed, detail = replay_struct(r)
+        path = rep.write_replay(r.name, dict(obligation=r.to_json(), solver_output=r.model, confirmed=confirmed, replay=detail,
+                                             how="python3-vt bin/check C02 --replay <this file>"))
+        return path, confirmed, detail
+
+    rep.add_deductive(sresults, sreplay)
     # [E] every Operation subclass is under a contract (proved) or a bounded contract
     ops = scan_operation_classes()
-    proved = {cls for (_m, cls, *_r) in c02_elem.OPS}
+    proved = {cls for (_m, cls, *_r) in c02_elem.OPS} | STRUCT_PROVED
     items, failures = [], []
     for name, mod in sorted(ops.items()):
         if name in ABSTRACT:
@@ -99,24 +131,29 @@ def run(tier, seed):
         "pyvc/realdom.py identity basis (sin^2+cos^2=1, tan=sin/cos, exp>0, exp(a-b)exp(b)=exp(a), sinh/cosh/tanh via exp, sqrt(u)^2=u, cbrt^3, log(exp u)=u, x^(y-1)x=x^y)",
         "NumPy elementwise kernels behave pointwise and equal their mathematical namesakes",
         "z3 4.x nlsat / cvc5 soundness",
+        "pyvc/idxdom.py: NumPy's definitions of transpose / swapaxes / moveaxis / roll / argsort over index tuples, and of reshape / ravel / flatten / "
+        "squeeze / expand_dims / atleast_kd as 'same C-order flat sequence, new shape' (axioms)",
     ]
     rep.assumptions += [
         "floats are treated as mathematical reals (rounding, overflow, inf/nan not modelled)",
         "pointwise abstraction: operands already broadcast to a common shape (broadcast reduction is C01.rb/C01.step)",
         "Sinc: the band 0<|x|<=1e-162, where the code returns 0 for a derivative of magnitude <1e-161, is excluded",
         "bounded part: numeric 4th-order central differences of the op's own forward are the VJP oracle (rel 2e-5)",
+        "rearrangement ops (C02.struct): ranks 0..3 (thorough 0..4) and every axis argument for those ranks are enumerated; extents, roll shifts and "
+        "reshape targets are symbolic integers of unbounded value; np.roll(axis=None) and order != 'C' are outside the contract (bounded only)",
         "extraction drops docstrings, annotations, TYPE_CHECKING blocks, message texts",
     ]
     rep.extra["explanation"] = (
         "Mixed level: %d elementwise/activation VJP+frame+alias obligations discharged deductively by PyVC (symbolic execution of the "
-        "real __call__/backward_var ASTs, z3 NRA) for all real inputs; the non-elementwise kernels are checked by a bounded run-time "
+        "real __call__/backward_var ASTs, z3 NRA) for all real inputs; %d obligations on the 14 rearrangement operations (transpose family, roll, "
+        "reshape family, broadcast_to) discharged in the index-function domain for symbolic extents; the remaining non-elementwise kernels are checked by a bounded run-time "
         "VJP contract over an enumerated catalogue (counted separately, never as proved); a complete AST enumeration shows every "
-        "Operation subclass falls under one of the two." % sum(1 for r in results if r.status == "discharged")
+        "Operation subclass falls under one of the two." % (sum(1 for r in results if r.status == "discharged"), sum(1 for r in sresults if r.status == "discharged"))
     )
-    rep.extra["paths"] = info["paths"]
+    rep.extra["paths"] = info["paths"] + sinfo["paths"]
     rep.extra["numpy_models_used"] = sorted(info["models"])[:80]
     if tier == "thorough":
-        rep.run_canaries(['c02_elem'])
+        rep.run_canaries(['c02_elem', 'c02_struct'])
     return rep.finish(min_obligations=300)
 
 
